@@ -228,6 +228,7 @@ def run(chk):
     forms = ["if self.__x == other.__x:\n    if (self.__y + other.__y) % X_p == 0:\n        return INFINITY\n    else:\n        return self.double()",
              "if self.__x == other.__x:\n    if (self.__y + other.__y) % X_p != 0:\n        return self.double()\n    else:\n        return INFINITY",
              "if self.__x == other.__x:\n    if (self.__y + other.__y) % X_p == 0:\n        return INFINITY\n    return self.double()",
+             "if self.__x == other.__x:\n    if (self.__y + other.__y) % X_p != 0:\n        return self.double()\n    return INFINITY",
              "if self.__x == other.__x:\n    if (self.__y - other.__y) % X_p == 0:\n        return self.double()\n    else:\n        return INFINITY",
              "if self.__x == other.__x:\n    if (self.__y - other.__y) % X_p == 0:\n        return self.double()\n    return INFINITY"]
     Dl = pat.defs_of(fl.node)
